@@ -153,6 +153,19 @@ CHECKS = {
         ref="DESIGN.md 4 C07",
         technique="z3 regex language inclusion + bounded symbolic execution (CrossHair/z3) of the real decoding and wiring code",
     ),
+    "C09": dict(
+        text="Descriptor-ownership kernel of 'the session is left as found', on the real PipeChannel, SubprocSpec.close, cmds_to_specs "
+             "(incl. its error branch and the capture pipes of the last stage) and CommandPipeline start-failure / end / close code over "
+             "a model fd table with POSIX lowest-free recycling: every sequence of up to 5 channel operations interleaved with another "
+             "owner allocating pipes must neither close a number twice nor touch a foreign descriptor nor leak; pipelines of 1-3 stages "
+             "under four capture kinds with a fault at any stage (conflicting redirects, pipe-redirect without pipe, unthreadable alias, "
+             "spec construction raising, process start raising OSError or KeyboardInterrupt) must leave the fd table as before; and a "
+             "failed spawn of a captured command (7 exception classes) must restore the four signal handlers.",
+        note="Partial claim: children, helper threads, terminal ownership, sys.std*, cwd and handlers of successfully started stages are "
+             "OS state outside this model. Processes are model objects; descriptors freed only by garbage collection count as leaked. "
+             "One defect repaired.",
+        ref="DESIGN.md 4 C09",
+    ),
 }
 
 NA = {
